@@ -267,8 +267,10 @@ func (c *rapidContext) watchEvents(events <-chan supvmodel.Event) {
 		// At the moment we only get termination events.
 		// When their are other event types then we would need to be selective,
 		// about what we send to handleShutdownEvent().
-		c.shutdownContext.handleProcessExit(*termination)
+		// The cancellation comes first: closing the exit channel lets a reset that waits for this exit go on and
+		// set up the next generation, whose flows a cancellation applied afterwards would hit.
 		c.registrationService.CancelFlows(err)
+		c.shutdownContext.handleProcessExit(*termination)
 	}
 }
 
